@@ -438,6 +438,7 @@ func runCheck(id, tier string, verbose bool, only string, workers int, noval boo
 		}
 	}
 	nviol := 0
+	confirmedLabels := map[string]bool{}
 	os.MkdirAll(filepath.Join(verifDir, "replays"), 0o755)
 	for i := range viols {
 		j := jobs[i]
@@ -466,6 +467,7 @@ func runCheck(id, tier string, verbose bool, only string, workers int, noval boo
 		}
 		samples = append(samples, sampleOut{Harness: j.Harness, Kind: "counterexample", Label: j.Label, Verdict: "sat", Vector: j.Vector, Observes: j.Observes, Note: why})
 		if confirmed {
+			confirmedLabels[j.Harness+"\x00"+j.Label] = true
 			nviol++
 			path := filepath.Join(verifDir, "replays", fmt.Sprintf("%s_%s_%s.json", id, j.Harness, sanitize(j.Label)))
 			jb, _ := json.MarshalIndent(j, "", " ")
@@ -492,7 +494,17 @@ func runCheck(id, tier string, verbose bool, only string, workers int, noval boo
 		if strings.HasPrefix(got, "PANIC") {
 			got = "PANIC"
 		}
-		if got != want || strings.Join(r.Observes, ",") != strings.Join(exp.Observes, ",") || len(r.Fails) > 0 {
+		// a sample that fails natively where a violation was already confirmed
+		// and reported agrees with the engine (the engine assumes an earlier
+		// assertion when deciding later ones on the same path, so it reports
+		// the first failure of a path; the native run lists its consequences too)
+		unexplained := len(r.Fails)
+		for _, f := range r.Fails {
+			if confirmedLabels[j.Harness+"\x00"+f] {
+				unexplained = 0
+			}
+		}
+		if got != want || strings.Join(r.Observes, ",") != strings.Join(exp.Observes, ",") || unexplained > 0 {
 			problems = append(problems, fmt.Sprintf("translator validation mismatch on %s: engine end=%s obs=%v, native end=%s obs=%v fails=%v vector=%v", j.Harness, want, exp.Observes, r.End, r.Observes, r.Fails, j.Vector))
 			continue
 		}
